@@ -31,6 +31,42 @@ Definition avgM (d : nat) (h : list Q) : @opmat bigQ := average_opmat d (bql h).
 ERR = {None: 0, 'TypeError': 1, 'ValueError': 2, 'IndexError': 3, 'AssertionError': 4, 'RuntimeError': 5}
 MODES = {'strain': 0, 'stress': 1, 'Plane-Strain': 0, 'plane stress': 1}
 KNOWN = ('Strain._prepare', 'strain_affine.shear_component', 'gradient with non-zero shear part')
+# F32 (repaired): ElementOperation._sensitivity allocated zeros_like(state) and truncated the sensitivities of integer-typed nodal vectors
+INTU = ('ElementOperation._sensitivity', 'sensitivity is the transpose of the operator (NodalOperation response for the same element matrix)',
+        'integer-typed nodal vector')
+SENS_PRED = INTU[1]
+# how a constructor argument is handed over: Python / numpy scalar kinds of the element sizes
+KINDS = {'float': float, 'int': int, 'np.float64': np.float64, 'np.int64': np.int64, 'np.int32': np.int32}
+INT_KINDS = ('int', 'np.int64', 'np.int32')
+
+
+def mk_sizes(hs, kinds=None):
+    """element sizes as they are handed to DomainDefinition: kinds[i] names the scalar type of entry i (None: as stored)"""
+    if kinds is None:
+        return list(hs)
+    out = []
+    for h, k in zip(hs, kinds):
+        if k in INT_KINDS:
+            assert float(h) == int(h), (h, k)
+            out.append(KINDS[k](int(h)))
+        else:
+            out.append(KINDS[k](h))
+    return out
+
+
+def mk_arr(data, dtype=None):
+    """array of the named dtype (None: float64); the data must be representable (integers for integer dtypes)"""
+    a = np.array(data, dtype=float)
+    if dtype in (None, 'float64'):
+        return a
+    b = a.astype(np.dtype(dtype))
+    assert np.array_equal(b.astype(float), a), (dtype, 'data not representable')
+    return b
+
+
+def is_int_valued(a):
+    a = np.asarray(a, dtype=float)
+    return bool(np.all(a == np.round(a)))
 
 
 def fr(x):
@@ -69,6 +105,34 @@ def rand_grid(rng, dim=None, small=False):
 def affine_field(d, Gm, c):
     pos = d.get_node_position().T          # (nnodes, dim)
     return (pos @ np.asarray(Gm, dtype=float).T + np.asarray(c, dtype=float)).ravel()
+
+
+def field_of(c, d):
+    """the nodal vector of a derived case on domain d, in the dtype named by the case (integer dtypes only for integer data)"""
+    if c.get('field') == 'affine':
+        u = affine_field(d, c['G'], c['c0'])
+    else:
+        u = np.array(c['u'], dtype=float)
+    dt = c.get('u_dtype')
+    if dt not in (None, 'float64') and is_int_valued(u):
+        return mk_arr(u, dt)
+    return np.asarray(u, dtype=float)
+
+
+def build_module(pym, c, d, v):
+    """the derived module of case c on domain d with input v, and the Coq operator array of the model"""
+    kind, kw = c['what'], c.get('kw', {})
+    dim = d.dim
+    hq = ql([fr(h) for h in c['sizes']]) + '%Q'
+    if kind == 'strain':
+        return pym.Strain(pym.Signal('u', v), domain=d, voigt=kw['voigt']), f'(strainM {dim}%nat {hq} {vlib.blit(kw["voigt"])})'
+    if kind == 'stress':
+        return (pym.Stress(pym.Signal('u', v), domain=d, e_modulus=kw['E'], poisson_ratio=kw['nu'], plane=kw['plane']),
+                f'(stressM {dim}%nat {hq} {qlit(fr(kw["E"]))}%Q {qlit(fr(kw["nu"]))}%Q {MODES[kw["plane"]]})')
+    if kind == 'average':
+        return pym.ElementAverage(pym.Signal('u', v), domain=d), f'(avgM {dim}%nat {hq})'
+    return (pym.ThermoMechanical(pym.Signal('x', v), domain=d, e_modulus=kw['E'], poisson_ratio=kw['nu'], alpha=kw['alpha'], plane=kw['plane']),
+            f'(thermoM {dim}%nat {hq} {qlit(fr(kw["E"]))}%Q {qlit(fr(kw["nu"]))}%Q {qlit(fr(kw["alpha"]))}%Q {MODES[kw["plane"]]})')
 
 
 def run(ctx):
@@ -119,28 +183,41 @@ def run(ctx):
         d = pym.DomainDefinition(a, b, cz)
         g = f'(G {a} {b} {cz})'
         en = d.elemnodes
-        EM = np.array(c['em'], dtype=float)
+        EM = mk_arr(c['em'], c.get('em_dtype'))
         lead = list(EM.shape[:-1])
         kd = EM.shape[-1]
         rows = EM.reshape(-1, kd)
         om = f'(OM {zl(lead)} {kd} {qmat(rows)})'
         nt = d.nel >= 2
-        label = (c['what'], tuple(c['grid']), tuple(EM.shape), c.get('ndof'), str(c.get('u'))[:120], c.get('malformed'), c.get('corpus'))
+        dts = tuple(str(c.get(k)) for k in ('em_dtype', 'u_dtype', 'dy_dtype', 'x_dtype', 'df_dtype'))
+        label = (c['what'], tuple(c['grid']), tuple(EM.shape), c.get('ndof'), str(c.get('u'))[:120], c.get('malformed'), c.get('corpus'),
+                 c.get('stress'), dts, str(c['em'])[:80])
+        ctx.count(f'operator dtype {EM.dtype}')
+
+        def raised(site, e):
+            # a well-formed case must not raise: concrete failing input
+            ctx.violation('impl-violates', site, 'well-formed operator array and data are accepted', f'leading shape {len(lead)}-D',
+                          {k: v for k, v in c.items()}, expected='no exception', got=f'{type(e).__name__}: {str(e)[:300]}')
         if c['what'] == 'elemop':
-            u = np.array(c['u'], dtype=float)
-            err, y, du = None, None, None
+            u = mk_arr(c['u'], c.get('u_dtype'))
+            err, y, du, dy = None, None, None, None
+            stage = 'ElementOperation._response'
             try:
                 m = pym.ElementOperation(pym.Signal('u', u), domain=d, element_matrix=EM)
                 m.response()
                 y = np.array(m.sig_out[0].state, dtype=float)
-                dy = np.array(c['dy'], dtype=float).reshape(y.shape) if c.get('dy') is not None else None
+                dy = mk_arr(c['dy'], c.get('dy_dtype')).reshape(y.shape) if c.get('dy') is not None else None
                 if dy is not None:
+                    stage = 'ElementOperation._sensitivity'
                     m.sig_out[0].sensitivity = dy
                     m.sensitivity()
                     du = np.array(m.sig_in[0].sensitivity, dtype=float)
             except Exception as e:  # noqa
                 err = err_name(e)
+                if not c.get('malformed'):
+                    raised(stage, e)
             ctx.count(f'ElementOperation lead{len(lead)}D dim{d.dim}' + (' malformed' if c.get('malformed') else ''))
+            ctx.count(f'nodal vector dtype {u.dtype}')
             if err is not None or c.get('malformed'):
                 ctx.count(f'error {err}')
                 add(label, f'Z.eqb (eo_status {g} {om} {u.size}) {ERR.get(err, 6)}', nt, case=c)
@@ -151,21 +228,26 @@ def run(ctx):
             if du is not None:
                 parts.append(f'bql_close 0 (eo_sensitivity {g} {om} {u.size} (bqm {qmat(dy.reshape(-1, dy.shape[-1]))})) {qvec(du)}')
             add(label, ' && '.join(parts), nt, case=c)
-            ocases.append(dict(kind='elemop', c=c, y=y))
+            ocases.append(dict(kind='elemop', c=c, y=y, du=du, dy=dy))
         else:
-            x = np.array(c['x'], dtype=float)
+            x = mk_arr(c['x'], c.get('x_dtype'))
             err, f_, dx_ = None, None, None
+            stage = 'NodalOperation._response'
             try:
                 m = pym.NodalOperation(pym.Signal('x', x), domain=d, element_matrix=EM)
                 m.response()
                 f_ = np.array(m.sig_out[0].state, dtype=float)
                 if c.get('df') is not None:
-                    m.sig_out[0].sensitivity = np.array(c['df'], dtype=float)
+                    stage = 'NodalOperation._sensitivity'
+                    m.sig_out[0].sensitivity = mk_arr(c['df'], c.get('df_dtype'))
                     m.sensitivity()
                     dx_ = np.array(m.sig_in[0].sensitivity, dtype=float)
             except Exception as e:  # noqa
                 err = err_name(e)
+                if not c.get('malformed'):
+                    raised(stage, e)
             ctx.count(f'NodalOperation lead{len(lead)}D dim{d.dim}' + (' malformed' if c.get('malformed') else ''))
+            ctx.count(f'element data dtype {x.dtype}')
             if err is not None or c.get('malformed'):
                 ctx.count(f'error {err}')
                 add(label, f'Z.eqb (no_status {g} {om}) {ERR.get(err, 6)}', nt, case=c)
@@ -176,37 +258,93 @@ def run(ctx):
             if dx_ is not None:
                 parts.append(f'bqm_close 0 (no_sensitivity {g} {om} (bql {qvec(c["df"])})) {qmat(dx_.reshape(-1, dx_.shape[-1]))}')
             add(label, ' && '.join(parts), nt, case=c)
-            ocases.append(dict(kind='nodalop', c=c, f=f_))
+            ocases.append(dict(kind='nodalop', c=c, f=f_, dx=dx_))
 
     def rand_lead(rng_):
         k = rng_.choice((0, 1, 1, 2, 2, 3))
         return [rng_.randint(1, 3) for _ in range(k)]
 
-    gen = list(corpus)
-    ngen = 60 if quick else 500
-    for t in range(ngen):
-        a, b, cz = rand_grid(rng)
+    def rand_data(r_, n, lo, hi, dtypes=('float64',), dyadic=0.35):
+        """n exactly representable numbers and the dtype they are handed over in: integers in an integer or float dtype,
+        or multiples of 1/4 (float64 only)"""
+        if r_.random() < dyadic:
+            return [r_.randint(4 * lo, 4 * hi) / 4 for _ in range(n)], 'float64'
+        return [r_.randint(lo, hi) for _ in range(n)], r_.choice(dtypes)
+
+    EM_DT = ('float64', 'float64', 'int64', 'int32', 'float32')
+    VEC_DT = ('float64', 'float64', 'int64', 'int32', 'float32')
+
+    def shaped(data, shape):
+        return np.array(data, dtype=float).reshape(shape).tolist()
+
+    def gen_generic(r_, what, grid, ndof, lead, node_level=False, tag=None, nonsym=False):
+        a, b, cz = grid
         dim = 2 if cz == 0 else 3
         en = 2 ** dim
         nn = (a + 1) * (b + 1) * (cz + 1)
         nel = a * b * max(cz, 1)
+        nrow = int(np.prod(lead)) if lead else 1
+        kd = en if (node_level and what == 'elemop') else en * ndof
+        em, em_dt = rand_data(r_, nrow * kd, -4, 4, EM_DT)
+        EM = np.array(em, dtype=float).reshape(list(lead) + [kd])
+        if nonsym and len(lead) >= 2 and lead[0] == lead[1] and lead[0] > 1 and np.array_equal(EM, np.swapaxes(EM, 0, 1)):
+            EM[(0, 1) + (0,) * (EM.ndim - 2)] += 1
+        c = dict(what=what, grid=list(grid), em=EM.tolist(), em_dtype=em_dt, ndof=ndof)
+        if tag:
+            c['stress'] = tag
+        if what == 'elemop':
+            u, u_dt = rand_data(r_, nn * ndof, -5, 5, VEC_DT, dyadic=0.2)
+            oshape = ([ndof] if (kd == en and ndof > 1) else []) + list(lead) + [nel]
+            dy, dy_dt = rand_data(r_, int(np.prod(oshape)), -3, 3, VEC_DT)
+            c.update(u=u, u_dtype=u_dt, dy=dy, dy_dtype=dy_dt)
+        else:
+            x, x_dt = rand_data(r_, nrow * nel, -5, 5, VEC_DT)
+            X = np.array(x, dtype=float).reshape(list(lead) + [nel])
+            if nonsym and len(lead) >= 2 and lead[0] == lead[1] and lead[0] > 1 and np.array_equal(X, np.swapaxes(X, 0, 1)):
+                X[(0, 1) + (0,) * (X.ndim - 2)] += 1
+            df, df_dt = rand_data(r_, nn * ndof, -3, 3, VEC_DT)
+            c.update(x=X.tolist(), x_dtype=x_dt, df=df, df_dtype=df_dt)
+        return c
+
+    gen = list(corpus)
+    # deterministic stress cases (the same on every seed): operators with >= 2 leading dimensions of equal and unequal sizes,
+    # data not symmetric in those indices, the SAME operator array through NodalOperation and ElementOperation (dof level and
+    # node level), response and sensitivity; every combination of float / integer typed operator, nodal and element data
+    import random as _random
+    rs_ = _random.Random(1212)
+    k_ = 0
+    for grid in ([2, 1, 0], [1, 2, 1]):
+        for lead in ([2, 2], [3, 3], [2, 3], [3, 2], [2, 2, 2], [1, 2], [2, 1, 3], [3], []):
+            ndof = (1, 2, 3)[k_ % 3]
+            k_ += 1
+            cn = gen_generic(rs_, 'nodalop', grid, ndof, lead, tag='lead', nonsym=True)
+            ce = gen_generic(rs_, 'elemop', grid, ndof, lead, tag='lead', nonsym=True)
+            ce['em'], ce['em_dtype'] = cn['em'], cn['em_dtype']       # the same operator array for both modules
+            gen += [cn, ce, gen_generic(rs_, 'elemop', grid, ndof, lead, node_level=True, tag='lead-node', nonsym=True)]
+    # dtype grid on one small operator: every pairing of operator / vector / seed dtype, with non-integer values on the float side
+    for em_dt, v_dt, s_dt in itertools.product(('float64', 'int64'), ('float64', 'int64', 'int32'), ('float64', 'int64')):
+        for what in ('elemop', 'nodalop'):
+            c = gen_generic(rs_, what, [2, 2, 0], 2, [2], tag='dtype')
+            frac = lambda n, lo, hi: [rs_.randint(4 * lo, 4 * hi) / 4 for _ in range(n)]   # noqa
+            intg = lambda n, lo, hi: [rs_.randint(lo, hi) for _ in range(n)]               # noqa
+            pick = lambda dt: (frac if dt == 'float64' else intg)                          # noqa
+            c['em'] = shaped(pick(em_dt)(16, -4, 4), [2, 8])
+            c['em_dtype'] = em_dt
+            if what == 'elemop':
+                c.update(u=pick(v_dt)(18, -5, 5), u_dtype=v_dt, dy=pick(s_dt)(8, -3, 3), dy_dtype=s_dt)
+            else:
+                c.update(x=shaped(pick(v_dt)(8, -5, 5), [2, 4]), x_dtype=v_dt, df=pick(s_dt)(18, -3, 3), df_dtype=s_dt)
+            gen.append(c)
+    ngen = 60 if quick else 500
+    for t in range(ngen):
+        a, b, cz = rand_grid(rng)
+        dim = 2 if cz == 0 else 3
         ndof = rng.choice((1, 2, 3)) if dim == 2 else rng.choice((1, 1, 2, 3))
         lead = rand_lead(rng)
         if rng.random() < 0.55:
-            node_level = rng.random() < 0.45
-            kd = en if node_level else en * ndof
-            EM = [rng.randint(-4, 4) for _ in range(int(np.prod(lead)) * kd)]
-            EM = np.array(EM, dtype=float).reshape(lead + [kd]).tolist()
-            u = [rng.randint(-5, 5) for _ in range(nn * ndof)]
-            oshape = ([ndof] if (node_level and ndof > 1) else []) + lead + [nel]
-            dy = [rng.randint(-3, 3) for _ in range(int(np.prod(oshape)))]
-            gen.append(dict(what='elemop', grid=[a, b, cz], em=EM, u=u, dy=dy, ndof=ndof))
+            gen.append(gen_generic(rng, 'elemop', [a, b, cz], ndof, lead, node_level=rng.random() < 0.45))
         else:
-            kd = en * ndof
-            EM = np.array([rng.randint(-4, 4) for _ in range(int(np.prod(lead)) * kd)], dtype=float).reshape(lead + [kd]).tolist()
-            x = np.array([rng.randint(-5, 5) for _ in range(int(np.prod(lead)) * nel)], dtype=float).reshape(lead + [nel]).tolist()
-            df = [rng.randint(-3, 3) for _ in range(nn * ndof)]
-            gen.append(dict(what='nodalop', grid=[a, b, cz], em=EM, x=x, df=df, ndof=ndof))
+            gen.append(gen_generic(rng, 'nodalop', [a, b, cz], ndof, lead))
     # malformed
     for t in range(10 if quick else 50):
         a, b, cz = rand_grid(rng)
@@ -232,35 +370,20 @@ def run(ctx):
     def derived_case(c):
         a, b, cz = c['grid']
         hs = c['sizes']
-        d = pym.DomainDefinition(a, b, cz, *hs)
+        d = pym.DomainDefinition(a, b, cz, *mk_sizes(hs, c.get('size_kinds')))
         dim = d.dim
         g = f'(G {a} {b} {cz})'
         hq = ql([fr(h) for h in hs]) + '%Q'
         nt = d.nel >= 2
         kind = c['what']
         label = (kind, tuple(c['grid']), tuple(hs), str(c.get('kw')), str(c.get('G')), str(c.get('c0')), c.get('field'), c.get('corpus'),
-                 str(c.get('x'))[:80])
+                 str(c.get('x'))[:80], str(c.get('size_kinds')), c.get('u_dtype'), c.get('x_dtype'), c.get('stress'))
         ctx.count(f'{kind} dim{dim}')
+        ctx.count(f'element_size dtype {d.element_size.dtype}' + (' (sizes given as ' + '/'.join(c['size_kinds']) + ')' if c.get('size_kinds') else ''))
         if kind in ('strain', 'stress', 'average'):
-            if c.get('field') == 'affine':
-                u = affine_field(d, c['G'], c['c0']) if kind != 'average' else None
-                if kind == 'average':
-                    nd = c['kw']['ndof']
-                    pos = d.get_node_position().T
-                    u = (pos @ np.asarray(c['G'], dtype=float).T + np.asarray(c['c0'], dtype=float)).ravel()
-            else:
-                u = np.array(c['u'], dtype=float)
-            s = pym.Signal('u', u)
-            if kind == 'strain':
-                m = pym.Strain(s, domain=d, voigt=c['kw']['voigt'])
-                om = f'(strainM {dim}%nat {hq} {vlib.blit(c["kw"]["voigt"])})'
-            elif kind == 'stress':
-                kw = c['kw']
-                m = pym.Stress(s, domain=d, e_modulus=kw['E'], poisson_ratio=kw['nu'], plane=kw['plane'])
-                om = f'(stressM {dim}%nat {hq} {qlit(fr(kw["E"]))}%Q {qlit(fr(kw["nu"]))}%Q {MODES[kw["plane"]]})'
-            else:
-                m = pym.ElementAverage(s, domain=d)
-                om = f'(avgM {dim}%nat {hq})'
+            u = field_of(c, d)
+            ctx.count(f'nodal vector dtype {u.dtype}')
+            m, om = build_module(pym, c, d, u)
             EMi = np.array(m.element_matrix, dtype=float)      # operator array as prepared
             m.response()
             y = np.array(m.sig_out[0].state, dtype=float)
@@ -281,13 +404,11 @@ def run(ctx):
                 add(label, f'(let M := {om} in ' + ' && '.join(parts) + ')', nt, case=c)
             ocases.append(dict(kind=kind, c=c, y=y, u=u, EM=EMi))
         elif kind == 'thermo':
-            kw = c['kw']
-            x = np.array(c['x'], dtype=float)
-            m = pym.ThermoMechanical(pym.Signal('x', x), domain=d, e_modulus=kw['E'], poisson_ratio=kw['nu'], alpha=kw['alpha'], plane=kw['plane'])
+            x = mk_arr(c['x'], c.get('x_dtype'))
+            m, om = build_module(pym, c, d, x)
             EMi = np.array(m.element_matrix, dtype=float)
             m.response()
             f_ = np.array(m.sig_out[0].state, dtype=float)
-            om = f'(thermoM {dim}%nat {hq} {qlit(fr(kw["E"]))}%Q {qlit(fr(kw["nu"]))}%Q {qlit(fr(kw["alpha"]))}%Q {MODES[kw["plane"]]})'
             scE = max(1e-300, float(np.abs(EMi).max()))
             sc = max(1e-300, float(np.abs(f_).max()), scE * float(np.abs(x).max()))
             parts = ['israt M', f'bqm_close (rel {qlit(fr(scE))}) (om_rows (rat M)) {qmat(EMi.reshape(1, -1))}',
@@ -296,7 +417,8 @@ def run(ctx):
             ocases.append(dict(kind=kind, c=c, f=f_, EM=EMi))
 
     def rand_mat(r_):
-        return r_.choice((1.0, 2.0, 67.0, r_.uniform(0.2, 300))), r_.choice((0.3, 0.0, 0.25, r_.uniform(-0.8, 0.45)))
+        # material constants as Python floats AND as Python ints (E = 2, nu = 0)
+        return r_.choice((1.0, 2.0, 67.0, 1, 2, 67, r_.uniform(0.2, 300))), r_.choice((0.3, 0.0, 0.25, 0, r_.uniform(-0.8, 0.45)))
 
     def rand_G(r_, dim, shear):
         Gm = [[r_.randint(-3, 3) for _ in range(dim)] for _ in range(dim)]
@@ -308,33 +430,87 @@ def run(ctx):
             Gm[0][1] += 1
         return Gm
 
+    def rand_kinds(r_):
+        """how integer-valued element sizes are handed over: all of one integer kind (element_size becomes an integer array),
+        integer kinds mixed, or integers mixed with floats"""
+        t = r_.random()
+        if t < 0.4:
+            return [r_.choice(INT_KINDS)] * 3
+        if t < 0.7:
+            return [r_.choice(INT_KINDS) for _ in range(3)]
+        return [r_.choice(tuple(KINDS)) for _ in range(3)]
+
+    def gen_derived(r_, kind, dim, grid, hs, kinds, exact, shear=True, field='affine', tag=None, plane=None, mat=None, voigt=None):
+        a, b, cz = grid
+        nn = (a + 1) * (b + 1) * (cz + 1)
+        nel = a * b * max(cz, 1)
+        E, nu = mat or rand_mat(r_)
+        plane = plane or r_.choice(list(MODES))
+        c = dict(what=kind, grid=list(grid), sizes=list(hs))
+        if kinds is not None:
+            c['size_kinds'] = list(kinds)
+        if tag:
+            c['stress'] = tag
+        int_sizes = all(float(h) == int(h) for h in hs)
+        if kind in ('strain', 'stress'):
+            kw = dict(voigt=(r_.random() < 0.7) if voigt is None else voigt) if kind == 'strain' else dict(E=E, nu=nu, plane=plane)
+            if field == 'affine':
+                c.update(kw=kw, field='affine', G=rand_G(r_, dim, shear), c0=[r_.randint(-2, 2) for _ in range(dim)],
+                         x=[r_.choice((0.0, 1.0, 0.5, r_.uniform(0.01, 1))) for _ in range(nel)])
+                if tag:   # stress cases: never a vanishing normal strain
+                    for i in range(dim):
+                        c['G'][i][i] = c['G'][i][i] or (i + 1)
+                if int_sizes:
+                    c['u_dtype'] = r_.choice(('float64', 'int64', 'int32'))
+            else:
+                c.update(kw=kw, field='random', u=[r_.randint(-5, 5) for _ in range(nn * dim)], u_dtype=r_.choice(('float64', 'int64', 'int32')))
+        elif kind == 'average':
+            nd = r_.choice((1, 1, 2, 3))
+            c.update(kw=dict(ndof=nd), field='affine', exact=exact, G=[[r_.randint(-3, 3) for _ in range(dim)] for _ in range(nd)],
+                     c0=[r_.randint(-2, 2) for _ in range(nd)])
+            if int_sizes:
+                c['u_dtype'] = r_.choice(('float64', 'int64'))
+        else:
+            c.update(kw=dict(E=E, nu=nu, plane=plane, alpha=r_.choice((1e-6, 0.5, 1.0, 1, 2, r_.uniform(0.1, 2)))))
+            t = r_.random()
+            if t < 0.5:
+                c['x'] = [r_.choice((0.0, 1.0, 0.5, r_.uniform(0.01, 1))) for _ in range(nel)]
+            elif t < 0.75:
+                c.update(x=[r_.choice((0, 1, 1, 2)) for _ in range(nel)], x_dtype=r_.choice(('int64', 'int32', 'float64')))
+            else:
+                c['x'] = [1.0] * nel
+        return c
+
     der = [c for c in corpus if c['what'] in ('strain', 'stress', 'average', 'thermo')]
+    # deterministic stress cases (the same on every seed): integer-valued element sizes handed over as Python ints, numpy ints,
+    # mixed integer kinds and integers mixed with floats, 2-D (thickness 1, 2 and 3) and 3-D, every derived module and plane mode;
+    # the oracle compares each with the twin domain built from the equal float sizes
+    rs_ = _random.Random(1213)
+    SZ = ([2, 3, 1], [1, 2, 3], [3, 1, 2], [2, 2, 2], [1, 1, 1])
+    KS = (['int'] * 3, ['np.int64'] * 3, ['int', 'np.int32', 'np.int64'], ['np.int32'] * 3, ['int', 'float', 'int'], ['np.float64', 'int', 'np.int64'])
+    k_ = 0
+    for dim in (2, 3):
+        grid = [2, 2, 0] if dim == 2 else [2, 1, 1]
+        specs = [('strain', dict(voigt=True)), ('strain', dict(voigt=False)), ('stress', dict(plane='strain')), ('average', {}), ('thermo', dict(plane='stress'))]
+        if dim == 2:
+            specs += [('stress', dict(plane='plane stress')), ('thermo', dict(plane='Plane-Strain'))]
+        for kind, opt in specs:
+            hs, kinds = SZ[k_ % len(SZ)], KS[k_ % len(KS)] if k_ % 7 != 6 else ['int'] * 3
+            k_ += 1
+            der.append(gen_derived(rs_, kind, dim, grid, hs, kinds, True, tag='int-sizes', mat=(2.5, 0.25) if k_ % 2 else (2, 0), **opt))
     nder = 44 if quick else 400
     for t in range(nder):
         kind = rng.choice(('strain', 'strain', 'stress', 'stress', 'average', 'thermo'))
         dim = rng.choice((2, 2, 3))
-        a, b, cz = rand_grid(rng, dim=dim, small=(dim == 3 and rng.random() < 0.6))
+        grid = rand_grid(rng, dim=dim, small=(dim == 3 and rng.random() < 0.6))
         exact = rng.random() < 0.5
-        hs = rand_sizes(rng, exact)
-        nn = (a + 1) * (b + 1) * (cz + 1)
-        nel = a * b * max(cz, 1)
-        E, nu = rand_mat(rng)
-        plane = rng.choice(list(MODES))
-        if kind in ('strain', 'stress'):
-            kw = dict(voigt=rng.random() < 0.7) if kind == 'strain' else dict(E=E, nu=nu, plane=plane)
-            if rng.random() < 0.75:
-                shear = rng.random() < 0.6
-                der.append(dict(what=kind, grid=[a, b, cz], sizes=hs, kw=kw, field='affine', G=rand_G(rng, dim, shear),
-                                c0=[rng.randint(-2, 2) for _ in range(dim)], x=[rng.choice((0.0, 1.0, 0.5, rng.uniform(0.01, 1))) for _ in range(nel)]))
-            else:
-                der.append(dict(what=kind, grid=[a, b, cz], sizes=hs, kw=kw, field='random', u=[rng.randint(-5, 5) for _ in range(nn * dim)]))
-        elif kind == 'average':
-            nd = rng.choice((1, 1, 2, 3))
-            der.append(dict(what=kind, grid=[a, b, cz], sizes=hs, kw=dict(ndof=nd), field='affine', exact=exact,
-                            G=[[rng.randint(-3, 3) for _ in range(dim)] for _ in range(nd)], c0=[rng.randint(-2, 2) for _ in range(nd)]))
+        kinds = None
+        if rng.random() < 0.3:       # integer-valued sizes in every way of handing them over
+            hs, kinds, exact = [rng.choice((1, 1, 2, 3, 4)) for _ in range(3)], rand_kinds(rng), True
         else:
-            der.append(dict(what=kind, grid=[a, b, cz], sizes=hs, kw=dict(E=E, nu=nu, plane=plane, alpha=rng.choice((1e-6, 0.5, 1.0, rng.uniform(0.1, 2)))),
-                            x=[rng.choice((0.0, 1.0, 0.5, rng.uniform(0.01, 1))) for _ in range(nel)] if rng.random() < 0.7 else [1.0] * nel))
+            hs = rand_sizes(rng, exact)
+        field = 'affine' if (kind not in ('strain', 'stress') or rng.random() < 0.75) else 'random'
+        der.append(gen_derived(rng, kind, dim, grid, hs, kinds, exact, shear=rng.random() < 0.6, field=field))
     for c in der:
         derived_case(c)
 
@@ -386,29 +562,110 @@ def true_strain(Gm, dim):
     return np.array([Gm[0, 0], Gm[1, 1], Gm[2, 2], Gm[1, 2] + Gm[2, 1], Gm[0, 2] + Gm[2, 0], Gm[0, 1] + Gm[1, 0]])
 
 
+def eff_operator(EM, en, ndof):
+    """the operator ElementOperation applies to a vector with ndof dofs per node (node-level arrays are repeated per dof)"""
+    EM = np.asarray(EM, dtype=float)
+    if EM.shape[-1] == en * ndof:
+        return EM
+    out = np.zeros((ndof,) + EM.shape[:-1] + (ndof * en,))
+    for i in range(ndof):
+        for n in range(en):
+            out[(i,) + (Ellipsis, n * ndof + i)] = EM[..., n]
+    return out
+
+
+def ref_gather(EMe, dofconn, u):
+    """y[idx, e] = sum_k EMe[idx, k] * u[dofconn[e, k]], written out"""
+    u = np.asarray(u, dtype=float)
+    nel = dofconn.shape[0]
+    out = np.zeros(EMe.shape[:-1] + (nel,))
+    for idx in np.ndindex(*EMe.shape[:-1]):
+        for e in range(nel):
+            out[idx + (e,)] = sum(float(EMe[idx][k]) * float(u[dofconn[e, k]]) for k in range(EMe.shape[-1]))
+    return out
+
+
+def ref_scatter(EMe, dofconn, n, y):
+    """f[dofconn[e, k]] += sum_idx EMe[idx, k] * y[idx, e], written out"""
+    y = np.asarray(y, dtype=float).reshape(EMe.shape[:-1] + (dofconn.shape[0],))
+    out = np.zeros(n)
+    for e in range(dofconn.shape[0]):
+        for idx in np.ndindex(*EMe.shape[:-1]):
+            for k in range(EMe.shape[-1]):
+                out[dofconn[e, k]] += float(EMe[idx][k]) * float(y[idx + (e,)])
+    return out
+
+
+def differs(got, ref, tol=1e-12):
+    got, ref = np.asarray(got, dtype=float), np.asarray(ref, dtype=float)
+    return got.shape != ref.shape or not np.all(np.isfinite(got)) or float(np.abs(got - ref).max(initial=0.0)) > tol * max(1.0, float(np.abs(ref).max(initial=0.0)))
+
+
 def oracle(ctx, pym, ocases):
     """the property, stated in numpy, on the implementation's outputs"""
     rs = np.random.default_rng(ctx.seed)
     for oc in ocases:
         ctx.search_evaluations += 1
         c = oc['c']
-        kind = oc['kind']
-        a, b, cz = c['grid']
-        dim = 2 if cz == 0 else 3
         pub = {k: v for k, v in c.items()}
 
         def bad(site, pred, icls, expected=None, got=None):
             ctx.violation('impl-violates', site, pred, icls, pub, expected=expected, got=got)
+        try:
+            oracle_one(ctx, pym, oc, rs, bad)
+        except Exception as e:  # noqa  -- every case handed to the oracle is well-formed: an exception is a failing input
+            import traceback
+            tb = traceback.extract_tb(e.__traceback__)
+            where = next((f'{fr_.name}' for fr_ in reversed(tb) if 'pymoto' in fr_.filename and fr_.name.startswith('_')), tb[-1].name)
+            bad(f'{where}', 'well-formed operator array and data are accepted', str(oc['kind']), 'no exception', f'{type(e).__name__}: {str(e)[:300]}')
+
+
+def oracle_one(ctx, pym, oc, rs, bad):
+    if True:
+        c = oc['c']
+        kind = oc['kind']
+        a, b, cz = c['grid']
+        dim = 2 if cz == 0 else 3
         if kind in ('elemop', 'nodalop'):
-            # NodalOperation is the transpose of ElementOperation for the same operator array
             d = pym.DomainDefinition(a, b, cz)
-            EM = np.array(c['em'], dtype=float)
+            EM = mk_arr(c['em'], c.get('em_dtype'))
+            lead = EM.shape[:-1]
             kd = EM.shape[-1]
+            icls = f'leading shape {len(lead)}-D'
+            # (1) explicit references for response and sensitivity (no einsum / tensordot / add.at)
+            if kind == 'elemop':
+                u = mk_arr(c['u'], c.get('u_dtype'))
+                nd = u.size // d.nnodes
+                EMe = eff_operator(EM, d.elemnodes, nd)
+                dc = d.get_dofconnectivity(nd)
+                ref = ref_gather(EMe, dc, u)
+                if differs(oc['y'], ref):
+                    bad('ElementOperation._response', 'y[.., e] == sum_k B[.., k] u[dofconn[e, k]]', icls, ref.tolist(), oc['y'].tolist())
+                if oc.get('du') is not None:
+                    refs = ref_scatter(EMe, dc, u.size, oc['dy'])
+                    if differs(oc['du'], refs):
+                        if u.dtype.kind in 'iu':
+                            bad(*INTU, refs.tolist(), oc['du'].tolist())
+                        else:
+                            bad('ElementOperation._sensitivity', SENS_PRED, icls, refs.tolist(), oc['du'].tolist())
+            else:
+                nd = kd // d.elemnodes
+                dc = d.get_dofconnectivity(nd)
+                x = mk_arr(c['x'], c.get('x_dtype'))
+                ref = ref_scatter(np.asarray(EM, dtype=float), dc, nd * d.nnodes, x)
+                if differs(oc['f'], ref):
+                    bad('NodalOperation._response', 'f[dofconn[e, k]] accumulates sum_.. A[.., k] x[.., e]', icls, ref.tolist(), oc['f'].tolist())
+                if oc.get('dx') is not None:
+                    refs = ref_gather(np.asarray(EM, dtype=float), dc, mk_arr(c['df'], c.get('df_dtype')))
+                    if differs(oc['dx'], refs):
+                        bad('NodalOperation._sensitivity', 'sensitivity is the transpose of the operator (ElementOperation response for the same element matrix)',
+                            icls, refs.tolist(), oc['dx'].tolist())
+            # (2) NodalOperation is the transpose of ElementOperation for the same operator array, in the operator's own dtype
             if kd % d.elemnodes != 0:
-                continue
+                return
             ndof = kd // d.elemnodes
             u = rs.integers(-4, 5, size=d.nnodes * ndof).astype(float)
-            x = rs.integers(-4, 5, size=list(EM.shape[:-1]) + [d.nel]).astype(float)
+            x = rs.integers(-4, 5, size=list(lead) + [d.nel]).astype(float)
             me = pym.ElementOperation(pym.Signal('u', u), domain=d, element_matrix=EM.copy())
             me.response()
             mn = pym.NodalOperation(pym.Signal('x', x), domain=d, element_matrix=EM.copy())
@@ -417,9 +674,50 @@ def oracle(ctx, pym, ocases):
             rhs = float(np.dot(mn.sig_out[0].state, u))
             if abs(lhs - rhs) > 1e-9 * max(1.0, abs(lhs)):
                 bad('NodalOperation._response', '<x, ElementOperation(u)> == <NodalOperation(x), u>', f'dim{dim}', lhs, rhs)
-            continue
+            # ... and each module's sensitivity is the other module's response
+            me.sig_out[0].sensitivity = x
+            me.sensitivity()
+            if differs(me.sig_in[0].sensitivity, mn.sig_out[0].state):
+                bad('ElementOperation._sensitivity', SENS_PRED, icls, np.asarray(mn.sig_out[0].state).tolist(), np.asarray(me.sig_in[0].sensitivity).tolist())
+            mn.sig_out[0].sensitivity = u
+            mn.sensitivity()
+            if differs(mn.sig_in[0].sensitivity, me.sig_out[0].state):
+                bad('NodalOperation._sensitivity', 'sensitivity is the transpose of the operator (ElementOperation response for the same element matrix)',
+                    icls, np.asarray(me.sig_out[0].state).tolist(), np.asarray(mn.sig_in[0].sensitivity).tolist())
+            return
         hs = c['sizes']
-        d = pym.DomainDefinition(a, b, cz, *hs)
+        d = pym.DomainDefinition(a, b, cz, *mk_sizes(hs, c.get('size_kinds')))
+        site = dict(strain='Strain._prepare', stress='Stress._prepare', average='ElementAverage._prepare', thermo='ThermoMechanical._prepare')[kind]
+        # the way the element sizes are handed over (Python int, numpy int, float, mixed) must not matter: twin domain from the equal floats
+        if c.get('size_kinds') and any(k != 'float' for k in c['size_kinds']):
+            df_ = pym.DomainDefinition(a, b, cz, *[float(h) for h in hs])
+            vin = np.asarray(oc['u'], dtype=float) if kind != 'thermo' else np.array(c['x'], dtype=float)
+            mt, _ = build_module(pym, c, df_, vin)
+            EMt = np.array(mt.element_matrix, dtype=float)     # as prepared (ElementOperation may expand it per dof in response)
+            mt.response()
+            got = oc['f'] if kind == 'thermo' else oc['y']
+            exp = np.array(mt.sig_out[0].state, dtype=float)
+            if differs(oc['EM'], EMt) or differs(got, exp):
+                bad(site, 'result does not depend on the scalar type of the element sizes (integer sizes == equal float sizes)',
+                    f'dim{dim}', exp.tolist(), np.asarray(got).tolist())
+        # the sensitivity of the (linear) derived module is the transpose of its response:  <dy, y(v)> == <du(dy), v>
+        if kind in ('strain', 'stress', 'average'):
+            m, _ = build_module(pym, c, d, oc['u'])
+            m.response()
+            dy = rs.integers(-6, 7, size=np.shape(m.sig_out[0].state)) / 2
+            m.sig_out[0].sensitivity = dy
+            m.sensitivity()
+            du = np.asarray(m.sig_in[0].sensitivity, dtype=float)
+            v = rs.integers(-4, 5, size=oc['u'].size).astype(float)
+            mv, _ = build_module(pym, c, d, v)
+            mv.response()
+            lhs, rhs = float(np.sum(dy * mv.sig_out[0].state)), float(np.dot(du, v))
+            scl = max(1.0, float(np.abs(dy).sum() * np.abs(mv.sig_out[0].state).max()))
+            if du.shape != oc['u'].shape or abs(lhs - rhs) > 1e-9 * scl:
+                if oc['u'].dtype.kind in 'iu':
+                    bad(*INTU, lhs, rhs)
+                else:
+                    bad('ElementOperation._sensitivity', SENS_PRED, kind, lhs, rhs)
         if kind in ('strain', 'stress') and c.get('field') == 'affine':
             Gm = np.asarray(c['G'], dtype=float)
             eps = true_strain(Gm, dim)
@@ -434,7 +732,7 @@ def oracle(ctx, pym, ocases):
                     exp[dim:] = exp[dim:] / 2      # tensor components eps_ij, as the docstring states for voigt=False
                 if y.shape != (len(eps), d.nel):
                     bad('Strain._prepare', 'strain_affine.shape', icls, [len(eps), d.nel], list(y.shape))
-                    continue
+                    return
                 if np.abs(y[:dim] - exp[:dim, None]).max() > 1e-9 * sc:
                     bad('Strain._prepare', 'strain_affine.normal_component', icls, exp[:dim].tolist(), y[:dim, 0].tolist())
                 if np.abs(y[dim:] - exp[dim:, None]).max() > 1e-9 * sc:
@@ -446,7 +744,7 @@ def oracle(ctx, pym, ocases):
                 ssc = max(1.0, float(np.abs(sig).max()), float(np.abs(D).max()) * sc)
                 if y.shape != (len(eps), d.nel):
                     bad('Stress._prepare', 'stress_affine.shape', icls, [len(eps), d.nel], list(y.shape))
-                    continue
+                    return
                 if np.abs(y[:dim] - sig[:dim, None]).max() > 1e-9 * ssc:
                     bad('Stress._prepare', 'stress_affine.normal_component', icls, sig[:dim].tolist(), y[:dim, 0].tolist())
                 if np.abs(y[dim:] - sig[dim:, None]).max() > 1e-9 * ssc:
@@ -492,7 +790,7 @@ def oracle(ctx, pym, ocases):
             if np.abs(f_.sum(axis=0)).max() > 1e-9 * fsc * d.nnodes:
                 bad('ThermoMechanical._prepare', 'thermal load is self-equilibrated', f'dim{dim}', 0.0, f_.sum(axis=0).tolist())
             if dim == 3 or MODES[kw['plane']] == 1:
-                x = np.array(c['x'], dtype=float)
+                x = mk_arr(c['x'], c.get('x_dtype'))
                 mk = pym.AssembleStiffness(pym.Signal('x', x), domain=d, e_modulus=kw['E'], poisson_ratio=kw['nu'], plane=kw['plane'])
                 mk.response()
                 uexp = (kw['alpha'] * d.get_node_position().T).ravel()
